@@ -54,68 +54,78 @@ def r1(ctx):
 
 def r2(ctx):
     f = ctx.facts
+    from . import feval as E
     h = f.body("heads::AuthorHeads::has_news_for")
     ctx.touch(h)
-    # the map closure: compares ours vs theirs
-    cl = [c for c in f.descendants(h.path)]
-    cmp_sites = []
-    for c in cl:
+    for c in f.descendants(h.path):
         ctx.touch(c)
-        for cm in comparisons(c):
-            cmp_sites.append((c, cm))
-    for cm in comparisons(h):
-        cmp_sites.append((h, cm))
-    cmp_sites = [(b, c) for b, c in cmp_sites if not mir.is_noise(c["x"])]
-    if len(cmp_sites) != 1:
-        ctx.bad("C13.R2", h.path, "single-timestamp-comparison", "expected one comparison of our timestamp with theirs, found %d (UNSUPPORTED-FORM)" % len(cmp_sites), h.sp)
-    else:
-        b, c = cmp_sites[0]
-        def lab(op):
-            ks = set()
-            for o in trace(b, op):
-                s = origin_summary(o)
-                if "ts_ours" in s or (o.kind == "call" and "iter" in s) or (o.kind == "upvar" and o.data == "ts_ours"):
-                    ks.add("ours")
-                elif o.kind == "arg" and (o.data[1] in ("ts_theirs",) or o.data[0] == 2):
-                    ks.add("theirs")
-                elif o.kind == "call" and o.data["f"].get("name") == "get":
-                    ks.add("theirs")
-                else:
-                    ks.add("?" + s)
-            return ks.pop() if len(ks) == 1 else None
-        la, lb = lab(c["a"]), lab(c["b"])
-        tbl = TRUTH[c["op"]] if (la, lb) == ("ours", "theirs") else (flip(TRUTH[c["op"]]) if (la, lb) == ("theirs", "ours") else None)
-        if tbl is None:
-            ctx.bad("C13.R2", b.path, "news-compare.operands", "cannot label operands (%s,%s) (UNSUPPORTED-FORM)" % (la, lb), c["loc"])
-        else:
-            # the comparison result is the closure's return / or the branch that increments
-            is_ret = c["dest"]["l"] == 0 and b is not h
-            spec = {"Less": False, "Equal": False, "Greater": True}
-            ctx.check(is_ret and tbl == spec, "C13.R2", b.path, "news-iff-strictly-newer",
-                      "news(cmp(ours,theirs)) = %s; spec: flagged exactly for a strictly newer timestamp %s" % (tbl, spec), c["loc"])
-    # unknown author => news: unwrap_or(true)
-    uo = [t for _, t in h.calls() if t["f"].get("name") in ("unwrap_or", "map_or", "is_none_or", "is_some_and")]
-    ok = False
-    det = "no default found"
-    for t in uo:
-        n = t["f"].get("name")
-        if n == "unwrap_or" and t["a"][1][0] == "const":
-            ok = t["a"][1][1].get("val") == 1
-            det = "unwrap_or(%s)" % t["a"][1][1].get("val")
-        elif n == "map_or" and t["a"][1][0] == "const":
-            ok = t["a"][1][1].get("val") == 1
-            det = "map_or(%s, ..)" % t["a"][1][1].get("val")
-        elif n == "is_none_or":
-            ok = True
-            det = "is_none_or"
-    ctx.check(ok, "C13.R2", h.path, "unknown-author-is-news", det, h.sp)
-    # the lookup is in `other` by the author we iterate
-    g = [t for _, t in h.calls() if callee_matches(t, r"heads::AuthorHeads::get$")]
-    ok = len(g) == 1 and {o.data[1] for o in trace(h, g[0]["a"][0]) if o.kind == "arg"} == {"other"}
-    ctx.check(ok, "C13.R2", h.path, "lookup-in-other", "theirs = other.get(author)", h.sp)
+    # finite evaluation on a one-author abstraction: self holds (author, ts_ours); other either does not
+    # know the author or holds ts_theirs with cmp(ts_ours, ts_theirs) in {Less, Equal, Greater}
+    rows = {}
+    for known in (False, True):
+        for order in (("Less", "Equal", "Greater") if known else (None,)):
+            state = {"n": 0, "filter": None}
+
+            def oracle(kind, a, b2, site, known=known, order=order, state=state):
+                if kind == "call":
+                    t, args, it = b2
+                    full = t["f"].get("full", "") + " " + (t["f"].get("res") or "")
+                    if a == "iter" and "AuthorHeads" in full:
+                        return E.Tok("self.iter")
+                    if a == "into_iter":
+                        return args[0]
+                    if a == "next":
+                        state["n"] += 1
+                        if state["n"] == 1:
+                            it.heap["author0"] = E.Tok("author")
+                            it.heap["ts_ours0"] = E.Tok("ts_ours")
+                            return E.Some(("tuple", [E.href("author0"), E.href("ts_ours0")]))
+                        return E.NONE
+                    if a == "get" and "AuthorHeads" in full:
+                        who = it.tokname(args[0])
+                        return E.Some(E.Tok("ts_theirs")) if known else E.NONE
+                    if a == "filter":
+                        state["filter"] = args[1]
+                        return E.Tok("filtered")
+                    if a == "count" and state["filter"] is not None:
+                        it.heap["author0"] = E.Tok("author")
+                        it.heap["ts_ours0"] = E.Tok("ts_ours")
+                        item = ("tuple", [E.href("author0"), E.href("ts_ours0")])
+                        it.heap["item0"] = item
+                        cl = it.deref_val(state["filter"])
+                        it.heap["filtercl"] = cl
+                        r = it.call_body(cl[1], [E.href("filtercl"), E.href("item0")], 1)
+                        r = it.deref_val(r)
+                        return E.Int(r[1]) if E.is_int(r) else None
+                    if a == "new" and "NonZero" in full:
+                        return E.Tok("count=%s" % it.tokname(args[0]))
+                    return None
+                if kind in ("cmp", "eq") and "ts_ours" in str(a) + str(b2) and "ts_theirs" in str(a) + str(b2):
+                    o = {"Less": -1, "Equal": 0, "Greater": 1}[order]
+                    if str(a).startswith("ts_theirs"):
+                        o = -o
+                    return (o == 0) if kind == "eq" else o
+                return None
+            try:
+                ret, hp, ev = E.run(f, h.path, [E.href("self"), E.href("other")], {"self": E.Tok("self"), "other": E.Tok("other")}, oracle)
+                rows[("known" if known else "unknown", order)] = E.describe(ret, f)
+            except E.Unsupported as e:
+                rows[("known" if known else "unknown", order)] = "UNSUPPORTED-FORM: %s" % e
+    want = {("unknown", None): "count=1", ("known", "Less"): "count=0", ("known", "Equal"): "count=0", ("known", "Greater"): "count=1"}
+    ctx.check(rows == want, "C13.R2", h.path, "news-iff-strictly-newer-or-unknown-author",
+              "(peer knows the author, cmp(ours, theirs)) -> news count for that author: %s; spec: flagged exactly for a strictly newer timestamp or an unknown author" % rows, h.sp)
+    g = [t for b in f.family(h.path) for _, t in b.calls() if callee_matches(t, r"heads::AuthorHeads::get$")]
+    okg = len(g) == 1
+    ctx.check(okg, "C13.R2", h.path, "single-lookup-of-their-head", "%d lookups of the other side's head" % len(g), h.sp)
     it = [t for _, t in h.calls() if callee_matches(t, r"heads::AuthorHeads::iter$")]
     ok = len(it) == 1 and {o.data[1] for o in trace(h, it[0]["a"][0]) if o.kind == "arg"} == {"self"}
     ctx.check(ok, "C13.R2", h.path, "iterates-self", "ours = self.iter()", h.sp)
+    if okg:
+        gb = [b for b in f.family(h.path) if any(t is g[0] for _, t in b.calls())][0]
+        from .common import lift_origins
+        recv = lift_origins(f, gb, trace(gb, g[0]["a"][0]), h)
+        ok = {o.data[1] for o in recv if o.kind == "arg"} == {"other"} and all(o.kind == "arg" for o in recv)
+        ctx.check(ok, "C13.R2", h.path, "lookup-in-other", "theirs = other.get(author): receiver %s" % [origin_summary(o) for o in recv], g[0]["sp"])
 
     # has_news_for_us: receiver = peer heads argument, argument = locally computed heads
     u = f.body("store::fs::Store::has_news_for_us")
